@@ -368,6 +368,7 @@ func generate() {
 		}
 	}
 	generateMarshal(w, r)
+	generateLegacyRead(w, r)
 }
 
 func emitCase(w *bufio.Writer, i int, m msgs.Msg, ver int16, f *filler, msg protocol.Message, withClientID bool) {
